@@ -16,6 +16,7 @@ class ExportConfigBash(ExportConfig):
         if value is None:
             value = ''
         elif isinstance(value, str):
+            value = value.replace("\\","\\\\").replace("\"","\\\"").replace("$","\\$").replace("`","\\`")
             value = f"\"{value}\""
         elif isinstance(value, bool):
             value = "0" if value else "-1"   # in bash 0 is true and usually 1, -1 for error
